@@ -257,8 +257,16 @@ package cisco
 // the same for the tables of mergeCmds (commands of one name) and
 // mergeCryptoCommon (crypto map entries of one sequence number)
 //vc:func mergeCmds
+//vc:  assign after "mergeRefs(ab, "#* lastRefsMerged = arg2
+//vc:  invariant[C18] 2 "for _, b := range bl" @referencesOfEveryCommandMerged forall k int :: { bl[k] } k == rangeindex && 0 <= k ==> lastRefsMerged == bl[k]
 //vc:  invariant[C18] 2 "for _, b := range bl" @lookupTableStable mapvals(m) == loopold(mapvals(m)) && mapdom(m) == loopold(mapdom(m))
+// every crypto map line of the raw / IPv6 part has the objects it refers to
+// merged (mergeRefs), also a line spelled exactly like the Netspoc one: the ACL
+// of that name in the raw file extends the Netspoc ACL
+//vc:ghost var lastRefsMerged *cmd
 //vc:func mergeCryptoCommon
+//vc:  assign after "mergeRefs(ab, "#* lastRefsMerged = arg2
+//vc:  invariant[C18] 2 "for _, bCmd := range bl" @referencesOfEveryLineMerged forall k int :: { bl[k] } k == rangeindex && 0 <= k ==> lastRefsMerged == bl[k]
 //vc:  invariant[C18] 2 "for _, bCmd := range bl" @lookupTableStable mapvals(m) == loopold(mapvals(m)) && mapdom(m) == loopold(mapdom(m))
 
 // mergeSubCmds: a sub-command that exists only in the other part (raw / IPv6)
@@ -268,6 +276,8 @@ package cisco
 // the table of a's sub-commands is private to this activation: merging the
 // objects a sub-command refers to re-enters mergeSubCmds (username ->
 // group-policy), which must not disturb the table of the outer command
+//vc:  assign after "mergeRefs(ab, as, bs)" lastRefsMerged = arg2
+//vc:  invariant[C18] 2 "for _, bs := range b.sub" @referencesOfEverySubCommandMerged forall k int :: { rangeslice[k] } k == rangeindex && 0 <= k ==> lastRefsMerged == rangeslice[k]
 //vc:  invariant[C18] 2 "for _, bs := range b.sub" @lookupTableStable mapvals(m) == loopold(mapvals(m)) && mapdom(m) == loopold(mapdom(m))
 //vc:  assert[C18] after "bs.subCmdOf = a" @adoptedSubKnowsParent len(a.sub) > 0 && a.sub[len(a.sub)-1] == bs && bs.subCmdOf == a
 
